@@ -36,41 +36,49 @@ package etcd
 
 //@ func BackendShim.Create(ctx, put) (resp, err)
 //@   assumed
+//@   ensures [response-or-error] err == nil ==> resp != nil
 //@   requires [leader-only] leader_checked
 //@   modifies ghost.shim_writes
 //@   ensures [counted] shim_writes == old(shim_writes)+1
 //@ func BackendShim.Delete(ctx, key, revision) (resp, err)
 //@   assumed
+//@   ensures [response-or-error] err == nil ==> resp != nil
 //@   requires [leader-only] leader_checked
 //@   modifies ghost.shim_writes
 //@   ensures [counted] shim_writes == old(shim_writes)+1
 //@ func BackendShim.Update(ctx, rev, key, value, lease) (resp, err)
 //@   assumed
+//@   ensures [response-or-error] err == nil ==> resp != nil
 //@   requires [leader-only] leader_checked
 //@   modifies ghost.shim_writes
 //@   ensures [counted] shim_writes == old(shim_writes)+1
 //@ func BackendShim.Compact(ctx, revision) (resp, err)
 //@   assumed
+//@   ensures [response-or-error] err == nil ==> resp != nil
 //@   requires [leader-only] leader_checked
 //@   modifies ghost.shim_writes
 //@   ensures [counted] shim_writes == old(shim_writes)+1
 //@ func BackendShim.Get(ctx, r) (resp, err)
 //@   assumed
+//@   ensures [response-or-error] err == nil ==> resp != nil
 //@   requires [after-sync] synced
 //@   modifies ghost.shim_reads
 //@   ensures [counted] shim_reads == old(shim_reads)+1
 //@ func BackendShim.List(ctx, r) (resp, err)
 //@   assumed
+//@   ensures [response-or-error] err == nil ==> resp != nil
 //@   requires [after-sync] synced
 //@   modifies ghost.shim_reads
 //@   ensures [counted] shim_reads == old(shim_reads)+1
 //@ func BackendShim.Count(ctx, r) (resp, err)
 //@   assumed
+//@   ensures [response-or-error] err == nil ==> resp != nil
 //@   requires [after-sync] synced
 //@   modifies ghost.shim_reads
 //@   ensures [counted] shim_reads == old(shim_reads)+1
 //@ func BackendShim.GetPartitions(ctx, r) (resp, err)
 //@   assumed
+//@   ensures [response-or-error] err == nil ==> resp != nil
 //@   requires [after-sync] synced
 //@   modifies ghost.shim_reads
 //@   ensures [counted] shim_reads == old(shim_reads)+1
@@ -93,25 +101,25 @@ package etcd
 //@ pred shape_delete_unguarded(txn) = len(txn.Compare) == 0 && len(txn.Failure) == 0 && len(txn.Success) == 2 && get_of(txn.Success[0]) != nil && del_of(txn.Success[1]) != nil && bytes_eq(get_of(txn.Success[0]).Key, del_of(txn.Success[1]).Key) && len(del_of(txn.Success[1]).RangeEnd) == 0 && len(get_of(txn.Success[0]).RangeEnd) == 0
 
 //@ func isCreate(txn) (result)
-//@   props C16
+//@   props C16 C20
 //@   requires wire_txn(txn)
 //@   ensures [sound] result != nil ==> shape_create(txn) && result == put_of(txn.Success[0])
 //@   ensures [complete] shape_create(txn) ==> result != nil
 
 //@ func isDelete(txn) (rev, key, ok)
-//@   props C16
+//@   props C16 C20
 //@   requires wire_txn(txn)
 //@   ensures [sound] ok ==> (shape_delete_unguarded(txn) && rev == 0 && key == del_of(txn.Success[1]).Key) || (shape_delete_guarded(txn) && rev == modrev_of(txn.Compare[0]) && key == del_of(txn.Success[0]).Key)
 //@   ensures [complete] shape_delete_unguarded(txn) || shape_delete_guarded(txn) ==> ok
 
 //@ func isUpdate(txn) (rev, key, value, lease, ok)
-//@   props C16
+//@   props C16 C20
 //@   requires wire_txn(txn)
 //@   ensures [sound] ok ==> shape_update(txn) && rev == modrev_of(txn.Compare[0]) && bytes_eq(key, put_of(txn.Success[0]).Key) && value == put_of(txn.Success[0]).Value && lease == put_of(txn.Success[0]).Lease
 //@   ensures [complete] shape_update(txn) ==> ok
 
 //@ func isSingleKey(rangeEnd) (result)
-//@   props C16
+//@   props C16 C20
 //@   ensures [def] result == (len(rangeEnd) == 0)
 
 // ---- C16 / C18: the handlers ----
@@ -120,7 +128,7 @@ package etcd
 //@ pred shape_compact(txn) = len(txn.Compare) == 1 && txn.Compare[0].Target == etcdserverpb.Compare_VERSION && txn.Compare[0].Result == etcdserverpb.Compare_EQUAL && len(txn.Success) == 1 && put_of(txn.Success[0]) != nil && len(txn.Failure) == 1 && get_of(txn.Failure[0]) != nil
 
 //@ func isCompact(txn) (result)
-//@   props C16
+//@   props C16 C20
 //@   requires wire_txn(txn)
 //@   ensures [sound] result ==> shape_compact(txn)
 
@@ -133,8 +141,8 @@ package etcd
 // for a supported shape; anything else is rejected with an error and reaches neither the
 // backend nor the proxy
 //@ func (*RPCServer).Txn(ctx, txn) (resp, err)
-//@   props C16 C18
-//@   nosafety
+//@   props C16 C18 C20
+//@   nosafety C16 C18
 //@   requires wf_rpc(s) && wire_txn(txn) && !leader_checked
 //@   modifies ghost.leader_checked ghost.shim_writes ghost.forwarded
 //@   ensures [follower-writes-nothing] !leader_checked ==> shim_writes == old(shim_writes)
@@ -143,8 +151,8 @@ package etcd
 //@   ensures [supported-shape-executed-once] leader_checked && (shape_create(txn) || shape_update(txn) || shape_delete_guarded(txn) || shape_delete_unguarded(txn)) && shim_writes == old(shim_writes) ==> false
 
 //@ func (*RPCServer).Range(ctx, r) (resp, err)
-//@   props C18
-//@   nosafety
+//@   props C18 C20
+//@   nosafety C18
 //@   requires wf_rpc(s) && r != nil && !synced
 //@   modifies ghost.synced ghost.shim_reads
 //@   ensures [failed-sync-reads-nothing] !synced ==> shim_reads == old(shim_reads) && err != nil
